@@ -501,4 +501,20 @@ def run(ctx):
 
     ctx.drive(from_catalog_cases(), ctx.n(40, 400), fn=fn2, salt=2)
 
+    # one bin holding 66000 events (more than any 8- or 16-bit counter can hold): a generated in-domain case cut down to its first
+    # event, repeated
+    def to_huge(c):
+        c = dict(c, events=c["events"][:1], repeat=66000, family="in_domain")
+        c.pop("bad_positions", None)
+        c.pop("tol", None)
+        c.pop("f4_columns", None)
+        return c
+    huge = cases(max_events=3).filter(lambda c: c["family"] == "in_domain" and len(c["events"]) >= 1).map(to_huge)
+
+    def fn3(c, case):
+        check_case(c, case)
+        c.record({k: v for k, v in case.items() if k != "region"} | {"region_kind": case["region"]["kind"]}, True, "huge_bin:" + case["region"]["kind"])
+
+    ctx.drive(huge, ctx.n(1, 6), fn=fn3, salt=3)
+
     ctx.drive(cases(max_events=ctx.n(40, 120)), ctx.n(600, 5000), fn=fn, salt=1)
